@@ -11,8 +11,10 @@ import Asn1Verif.Front.Ast
   `( SIZE ( … ) )`; an INTEGER without any range prints no constraint, every other range prints
   `( lo .. hi [, ...] )` with `MIN`/`MAX` for absent bounds; named numbers `{ a ( 1 ) , … }`;
   an extension marker `...` after the component with index `extAfter`; `OPTIONAL` for
-  `Ty.optional`, `DEFAULT …` for a default; string literals `" word "` (one text token — see
-  `Supported` in Props/C07), octet strings `' HEX ' H`; value references first, then definitions.
+  `Ty.optional`, `DEFAULT …` for a default; string literals `" word "` (one text token — see the
+  scope notes in Props/C07; literals of several tokens: `printStringTokens`), the empty string
+  `" "` (no token between the quotes), octet strings `' HEX ' H`, the empty one `' ' H`; value
+  references first, then definitions.
 -/
 namespace Asn1Verif.Front.Syn
 
@@ -77,12 +79,27 @@ def hexOfBytes : List Nat → List Char
   | [] => []
   | b :: rest => hexChar (b / 16) :: hexChar (b % 16) :: hexOfBytes rest
 
+/-- the content of a literal of one word: no token at all for the empty word (the tokenizer never
+    yields an empty text token) -/
+def printWord (cs : List Char) : List Token :=
+  if cs.isEmpty then [] else [.text (String.ofList cs)]
+
+/-- a string literal given by its tokens (words and separator characters other than the
+    delimiter): it denotes the tokens joined by single blanks, `litText` -/
+def printStringTokens (delim : Char) (ws : List Token) : List Token :=
+  .sep delim :: (ws ++ [.sep delim])
+
+def litText : List Token → List Char
+  | [] => []
+  | [t] => t.chars
+  | t :: rest => t.chars ++ ' ' :: litText rest
+
 def printLit : LiteralValue → List Token
   | .boolean true => [.text "TRUE"]
   | .boolean false => [.text "FALSE"]
   | .integer i => [tInt i]
-  | .string s => [.sep '"', .text s, .sep '"']
-  | .octetString bs => [.sep '\'', .text (String.ofList (hexOfBytes bs)), .sep '\'', .text "H"]
+  | .string s => .sep '"' :: (printWord s.toList ++ [.sep '"'])
+  | .octetString bs => .sep '\'' :: (printWord (hexOfBytes bs) ++ [.sep '\'', .text "H"])
   | .enumeratedVariant _ v => [.text v]     -- does not occur in an unresolved module
 
 def printDefault : UConst → List Token
